@@ -110,7 +110,10 @@ Definition g_add_all (s : state) : res := add_names s (status_keys s).
 (* Remove(path): a file (or a missing path) must be in the index; a directory
    removes the tracked files FOUND IN THE WORKTREE below it, nothing else *)
 Definition g_rm (s : state) (p : path) : res :=
-  if is_dir_wt s p && negb (has_file s p) then
+  (* below a file ("not a directory") or a symlink (refused by the worktree filesystem): the
+     entry is dropped in memory, deleting the file fails, the index is not saved *)
+  if existsb (fun f => under (wf_path f) p) (st_wt s) then RErr s
+  else if is_dir_wt s p && negb (has_file s p) then
     let victims := filter (fun q => under p q && is_some (find_i (st_index s) q)) (map wf_path (st_wt s)) in
     ROk (with_both s (fold_left idx_remove victims (st_index s)) (fold_left wt_remove victims (st_wt s)))
   else match find_i (st_index s) p with
@@ -207,6 +210,21 @@ Definition sort_name (e : tent) : bytes := match snd e with None => fst e ++ [SL
 (* Commit: the tree recorded is BuildTree of the index as it is *)
 Definition g_commit_files (s : state) : list (path * fmode * hash) := tree_files (build_trees (st_index s)).
 
+(* Tree.Encode runs Tree.Validate first: a symbolic link named like one of git's
+   metadata files makes BuildTree, hence Commit, fail (the HFS+/NTFS disguises
+   of these names are not modelled; duplicate / unsorted entries cannot arise
+   from an index without directory/file conflicts) *)
+Definition dot_meta : list bytes :=
+  map bytes_of_string [".gitmodules"; ".gitattributes"; ".gitignore"; ".mailmap"]%string.
+Definition base_name (p : path) : bytes := last (split_slash p []) [].
+Definition symlink_meta (e : ientry) : bool :=
+  match ie_mode e with
+  | MLink => negb (h_cid (ie_hash e) =? zero_cid) && existsb (bytes_eqb (base_name (ie_path e))) dot_meta
+  | _ => false
+  end.
+Definition g_commit (s : state) : option (list (path * fmode * hash)) :=
+  if existsb symlink_meta (st_index s) then None else Some (g_commit_files s).
+
 (* ------------------------------------------------------------ correspondence entry points *)
 
 Definition out_mode (m : fmode) : out := OSym (match m with MReg => "f" | MExec => "x" | MLink => "l" end).
@@ -239,6 +257,17 @@ Definition c28_mv (tbl : list string) (s : state) (a b : string) : out := out_re
 Definition c28_clean (tbl : list string) (s : state) (dir : bool) : out := out_res tbl (g_clean s dir).
 Definition c28_commit (tbl : list string) (s : state) : out :=
   let t := map unhex tbl in
-  OList [OSym "ok";
-         OList (map (fun '(p, m, h) => OList [OBytes p; out_mode m; OBytes (content_of t (h_cid h))])
-                    (sort_by (fun x => fst (fst x)) (g_commit_files s)))].
+  match g_commit s with
+  | None => OList [OSym "err"; OList []]
+  | Some files =>
+    OList [OSym "ok";
+           OList (map (fun '(p, m, h) => OList [OBytes p; out_mode m; OBytes (content_of t (h_cid h))])
+                      (sort_by (fun x => fst (fst x)) files))]
+  end.
+
+(* ------------------------------------------------------------ clean: empty directories *)
+
+(* doClean with Dir: removeDirIfEmpty on every directory visited, whatever the
+   ignore rules say; input = the empty directories of the worktree with their
+   ignore verdict, output = those that remain *)
+Definition g_clean_empty_dirs (dirs : list (path * bool)) : list path := [].
